@@ -105,7 +105,7 @@ def left_inv(self):
     N = contents(self.null_record)
     return (hjm_built(self.join_map) and self.kind == 1 and self.jmv == self.join_map.jm and self.nullw == self.join_map.max_record_len
             and len(N) == 1 and is_none(N[0][0]) and N[0][1] == self.nullw and contents(N[0][2]) == none_cells(self.nullw)
-            and is_held(N[0][2]) and not is_owned_below(self.null_record))
+            and is_held(N[0][2]) and not is_owned_below(N[0][2]) and not is_owned_below(self.null_record))
 
 
 @contract('rbql_engine.LeftJoiner.__init__', name='C04.left.init', props=['C04'])
